@@ -41,6 +41,8 @@ THEOREMS = [
     "C19.checker_exact",
     "C19.compiled_needs_no_source",
     "C19.load_prefers_source",
+    "C19.name_rule",
+    "C19.isRevFile_name",
 ]
 PARTIAL = {}
 TRUSTED = [
@@ -86,7 +88,7 @@ NAME_ALPHABET = list("._#pycoinit_a0f9xZ-") + ["__init__", ".py", ".pyc", ".pyo"
 def gen_name(rng):
     r = rng.random()
     if r < 0.3:
-        stem = rng.choice(F.STEMS + F.SPECIAL_STEMS + F.INIT_PREFIXED + ["", "__init__.", "__init", "_init__", ".", "#", "x.#"])
+        stem = rng.choice(F.STEMS + F.SPECIAL_STEMS + F.INIT_PREFIXED + F.LEADING + ["", "__init__.", "__init", "_init__", ".", "#", "x.#"])
         return stem + rng.choice(["", ".py", ".pyc", ".pyo", ".pyx", "py", ".py.bak", ".PY", ".pyco", ".pycc", "." + F.TAG + ".pyc", "__pycache__"])
     return "".join(rng.choice(NAME_ALPHABET) for _ in range(rng.randint(0, 7)))
 
@@ -107,10 +109,18 @@ def stream_match(ctx, n):
             impl_all = {"match": impl, "legacy": lg.group(1) if lg else None, "stem": nm.split(".")[0],
                         "cacheDir": nm.endswith("__pycache__"), "strip": nm.strip()}
             ctx.evaluation()
-            if ans[2 * i + k] != impl_all:
-                ctx.disagree("files.match", {"name": nm, "sourceless": sl}, impl_all, ans[2 * i + k])
+            a = dict(ans[2 * i + k])
+            spec_name = a.pop("specName", None)
+            if a != impl_all:
+                ctx.disagree("files.match", {"name": nm, "sourceless": sl}, impl_all, a)
             else:
                 ctx.trace_ok()
+            # the documented name rule (Spec.Files.isRevName) judged on the implementation's regex
+            if "\n" not in nm and spec_name is not None and spec_name != (m is not None):
+                ctx.fail({"kind": "name", "name": nm, "sourceless": sl},
+                         "name: a file called %r %s a revision file name (sourceless=%s) but the file-name regex %s it" % (
+                             nm, "is" if spec_name else "is not", sl, "accepts" if m else "skips"),
+                         impl=impl, tags=["name"])
         ctx.hist("match_outcome", "match" if F.REGEXES["sourceless"].match(nm) else "no-match")
 
 
@@ -556,6 +566,22 @@ def stream_prefix_locations(ctx):
     flush(ctx, pending)
 
 
+def stream_names(ctx):
+    """Deterministic battery: one directory holding a revision file for every unusual-but-legal file name (leading `.`,
+    `#`, `_`, `-`, `~`, digit, upper case, `@`, space, non-ASCII, `__init__`-prefixed, ...) next to the names that must be
+    ignored (`.#lock`, `__init__`), as `.py` in `va` and as `.pyc` in `vb`; all four settings."""
+    files = []
+    for i, st in enumerate(F.LEADING + F.INIT_PREFIXED + ["a1", ".#a1", "__init__", "x.y"]):
+        files.append({"path": "va/%s.py" % st, "kind": "src", "content": {"rev": "n%d" % i}})
+        files.append({"path": "vb/%s.pyc" % st, "kind": "pyc", "content": {"rev": "m%d" % i}})
+        files.append({"path": "vc/__pycache__/%s.%s.pyc" % (st, F.TAG), "kind": "pyc", "content": {"rev": "k%d" % i}})
+    plan = {"dirs": ["scripts", "va", "vb", "vc", "vc/__pycache__"], "files": files, "links": [], "locations": ["va", "vb", "vc"]}
+    pending = []
+    run_tree(ctx, plan, [{"sourceless": sl, "recursive": rec, "sep": "os", "jseed": 0, "from_path": not rec}
+                         for sl in (False, True) for rec in (False, True)], pending)
+    flush(ctx, pending)
+
+
 def stream_prepend(ctx, n):
     """`_split_on_space_comma_colon` (prepend_sys_path) vs the model, on strings"""
     rng = ctx.rng("prepend")
@@ -733,6 +759,7 @@ def run(ctx):
     stream_loadfile(ctx)
     stream_prepend_trees(ctx)
     stream_prefix_locations(ctx)
+    stream_names(ctx)
     stream_forms(ctx)
     stream_trees(ctx, 9000 if ctx.thorough else 220)
 
@@ -781,6 +808,11 @@ def replay(ctx, case):
             os.rmdir(tmp)
         m = ctx.drv.ask1({"op": "files.split", "sep": inp["sep"], "pathsep": os.pathsep, "s": inp["s"]})
         return {"impl": impl, "model": m, "listed": inp.get("listed")}
+    if inp.get("kind") == "name":
+        key = "sourceless" if inp["sourceless"] else "source"
+        mm = F.REGEXES[key].match(inp["name"])
+        a = ctx.drv.ask1({"op": "files.match", "name": inp["name"], "sourceless": inp["sourceless"]})
+        return {"name": inp["name"], "regex_accepts": mm is not None, "spec_is_revision_file_name": a.get("specName"), "model": a}
     if inp.get("kind") in ("config", "loadfile"):
         sub = Ctx2(ctx)
         (stream_config_errors if inp["kind"] == "config" else stream_loadfile)(sub)
